@@ -622,12 +622,22 @@ def check_case(ctx, case, collect=None):
                 elif tr == 'string':
                     s = jio.create_json_string(arg, indent=case['indent'], **({'description': case['desc']} if case.get('desc') is not None else {}))
                     y = jio.import_json_string(s, verbose=False, full_output=bool(case.get('full')))
+                elif tr == 'file' and isinstance(x, (pe.Obs, pe.Corr)) and case['seed'] % 3 == 1 and not case.get('full'):
+                    # the method of the object itself: `dump` writes <path>/<name>.json.gz
+                    x.dump('f', datatype='json.gz', path=d, **({'description': case['desc']} if (case.get('desc') is not None and isinstance(x, pe.Obs)) else {}))
+                    y = jio.load_json(os.path.join(d, 'f'), gz=True, verbose=False)
+                    s = jio.create_json_string(arg, indent=case['indent'])
+                    ctx.count('transport:dump-method')
                 elif tr == 'file':
                     jio.dump_to_json(arg, os.path.join(d, 'f'), indent=case['indent'], gz=case['gz'], **({'description': case['desc']} if case.get('desc') is not None else {}))
                     y = jio.load_json(os.path.join(d, 'f'), gz=case['gz'], verbose=False, full_output=bool(case.get('full')))
                     s = jio.create_json_string(arg, indent=case['indent'])
                 elif tr == 'pickle':
-                    if case['seed'] % 2:
+                    if case['seed'] % 2 and isinstance(x, (pe.Obs, pe.Corr)):
+                        x.dump('obj', datatype='pickle', path=d)
+                        y = pe.misc.load_object(os.path.join(d, 'obj.p'))
+                        ctx.count('transport:dump-method-pickle')
+                    elif case['seed'] % 2:
                         # the library's own pickle transport
                         pe.misc.dump_object(x, 'obj', path=d)
                         y = pe.misc.load_object(os.path.join(d, 'obj.p'))
